@@ -75,6 +75,17 @@ def run(tier):
     # ACCOUNT_REPLY: all 240 outcomes
     for v in range(240):
         check_outcome('account', mod.AccountReplySequenceStart, [v], mod.AccountReplySequenceStart.from_value, (240,))
+    # ... and again with every draw twice in a row, then in descending order: an outcome is a function of its own draws, not of earlier calls
+    for v in range(240):
+        for _ in range(2):
+            check_outcome('account', mod.AccountReplySequenceStart, [v], mod.AccountReplySequenceStart.from_value, (240,))
+    for v in range(239, -1, -1):
+        check_outcome('account', mod.AccountReplySequenceStart, [v], mod.AccountReplySequenceStart.from_value, (240,))
+    for v in (0, 1, 2, 878, 1755, 1756):
+        for k in (0, 1, -1):
+            for _ in range(2):
+                check_outcome('init', mod.InitSequenceStart, [v, k], mod.InitSequenceStart.from_init_values, (1757, 253, 253))
+                check_outcome('ping', mod.PingSequenceStart, [v, k], mod.PingSequenceStart.from_ping_values, (1757, 253 ** 2, 253))
     # INIT: every value x (all | edge) second draws
     n_init = 0
     for v in range(1757):
